@@ -63,7 +63,8 @@ class FakeFS:
 
     def glob(self, pattern):
         out = sorted(self.files, key=lambda n: self.order_key.get(n, 0))
-        self.rec.rec('cycle', 'glob', tuple(out))
+        # (the second source of a 'twin' scenario watches the same files through another pattern)
+        self.rec.rec('cycle', 'glob', tuple(out)) if pattern != '/data/f*' else self.rec.rec('twin_glob', tuple(out))
         return list(out)
 
 
@@ -184,6 +185,13 @@ def run_source(sc):
             keep.append(node)
         state = {'n': 0}
         keep.append(node.sink(make_sink(rec, sc.get('sink', {}), state)))
+        twin = None
+        if s['type'] == 'filenames' and s.get('twin'):
+            # a second, independent source watching the same directory (another consumer of the same files):
+            # what one source has emitted is no business of the other
+            twin = Stream.filenames('/data/f*', poll_interval=s['poll'], **kw)
+            keep.append(twin)
+            keep.append(twin.sink(lambda x: rec.rec('twin_emit', x)))
         ops = sorted(enumerate(sc['ops']), key=lambda p: (p[1]['t'], p[0]))
         for _, op in ops:
             dt = op['t'] - lp.time()
@@ -196,9 +204,13 @@ def run_source(sc):
             if k == 'start':
                 rec.rec('start_call')
                 src.start()
+                if twin is not None:
+                    twin.start()
             elif k == 'stop':
                 rec.rec('stop_call')
                 src.stop()
+                if twin is not None:
+                    twin.stop()
             elif k == 'append':
                 fobj.append(op['data'])
             elif k == 'create':
